@@ -143,7 +143,8 @@ def gen_spec(rng, wr_names, max_log=4, big=False):
         'first': rng.choice([0, 0, 1, 65535, rng.randrange(65536)]),
         'fill': rng.choice(['top', 'top', 'all', 'some', 'none']),
         'seed': rng.getrandbits(32),
-        'save_minor': rng.choice([None, None, None, 2, 3, 4, 5]),
+        'save_minor': rng.choice([None, None, None, None, 2, 3, 4, 5, 2, 3, 4, 5, 0, 1]),
+        'ops': [],
         'sheetver': rng.choice([1, 1, 0]),
         'asw': rng.random() < 0.5,
         'res': [], 'sheet': [],
@@ -165,8 +166,18 @@ def gen_spec(rng, wr_names, max_log=4, big=False):
         spec['res'].append({'id': rid, 'flags': fl, 'isbytes': is_bytes, 'enum': rng.random() < 0.5,
                             'ival': rng.getrandbits(32) if not is_bytes else 0,
                             'data': [rng.randrange(256) for _ in range(rng.choice([0, 1, 5, 40]))] if is_bytes else []})
+    if rng.random() < 0.25:
+        for _ in range(rng.choice([1, 1, 2])):
+            if rng.random() < 0.5:
+                spec['ops'].append([0, rng.choice([0, 0, 1, 2])])
+            else:
+                spec['ops'].append([1, rng.choice([0, 1, 2, 3, 4])])
     if rng.random() < 0.3:
         nums = rng.sample(range(64), rng.choice([1, 2, 3]))
+        if rng.random() < 0.3:
+            nums = sorted(set(nums) | {63})
+        if rng.random() < 0.02:
+            nums = list(range(64)); rng.shuffle(nums)
         for num in nums:
             frs = []
             for _ in range(rng.choice([0, 1, 2, 4])):
@@ -255,6 +266,15 @@ def build(V, spec):
     return v, mj
 
 
+def apply_ops(V, v, spec):
+    """clear_mipmaps / compute_mipmaps calls made on the object before it is saved."""
+    for op, arg in spec.get('ops') or []:
+        if op == 0:
+            v.clear_mipmaps(after=arg)
+        else:
+            v.compute_mipmaps(V.FilterMode(arg))
+
+
 ERRMAP = {'ValueError': 'value', 'NotImplementedError': 4, 'BufferError': 6, 'KeyError': 7, 'error': 9}
 
 
@@ -263,16 +283,17 @@ def impl_save(V, v, spec):
     b = BytesIO()
     ver = None if spec.get('save_minor') is None else (7, spec['save_minor'])
     try:
+        apply_ops(V, v, spec)
         v.save(b, version=ver, sheet_seq_version=spec.get('sheetver', 1), asw_or_later=spec.get('asw', True))
     except Exception as e:   # noqa
         return ('err', type(e).__name__)
     return b.getvalue()
 
 
-def impl_view(V, data, pixels=True):
+def impl_view(V, data, pixels=True, header_only=False):
     """Observation of VTF.read(data) in the shape of the model's `read` reply."""
     try:
-        r = V.VTF.read(BytesIO(data))
+        r = V.VTF.read(BytesIO(data), header_only=header_only)
     except Exception as e:  # noqa
         return {'err': type(e).__name__}
     res = []
